@@ -253,3 +253,27 @@ func VerifC06GoSpine()     { c06SpineRun("go") }
 func VerifC06JavaSpine()   { c06SpineRun("java") }
 func VerifC06PHPSpine()    { c06SpineRun("php") }
 func VerifC06PythonSpine() { c06SpineRun("python") }
+
+// ---------------------------------------------------------------- C07: a chain never modifies what it was handed
+
+func c07Frozen(lang string) {
+	g := c06Gen(false)
+	g.Names = []string{"Bar", "Baz"}
+	g.Defaults = true
+	in := c06Input(g, 1)
+	if v.Bool("entrypoint") {
+		in[0].EntryPoint = "Foo"
+		in[0].EntryPointType = ast.NewRef("p", "Foo")
+	}
+	v.Observe(in)
+	v.Freeze(in)
+	_, _ = chainOf(lang).Process(in)
+	v.CheckFrozen()
+	v.Reach("chain ran on frozen input")
+}
+
+func VerifC07FrozenGo()         { c07Frozen("go") }
+func VerifC07FrozenJava()       { c07Frozen("java") }
+func VerifC07FrozenPHP()        { c07Frozen("php") }
+func VerifC07FrozenPython()     { c07Frozen("python") }
+func VerifC07FrozenTypeScript() { c07Frozen("typescript") }
